@@ -80,7 +80,19 @@ class _Log:
 
 
 def run_case(case, tid, keep_out=False):
-    """Run the real driver under proxies; return the event list (one trace)."""
+    """Run the real driver under proxies; return the event list (one trace).  case['tf'] (optional) is the value of the
+    module setting Integration.timescale_factor for this call (restored afterwards)."""
+    from dadi import Integration
+    real_tf = Integration.timescale_factor
+    if case.get('tf'):
+        Integration.timescale_factor = case['tf']
+    try:
+        return _run_case(case, tid, keep_out)
+    finally:
+        Integration.timescale_factor = real_tf
+
+
+def _run_case(case, tid, keep_out=False):
     import dadi
     from dadi import Integration
     P = case['P']
@@ -347,6 +359,8 @@ def add_driver_traces(ctx, res, rng, dims, prop, frozen_bias=False):
                 c5 = copy.deepcopy(base); seq.append(c5)                                           # ... and off again
             if P >= 2:
                 c6 = copy.deepcopy(base); c6['mode'] = 'linear'; c6['grid_kind'] = 'uniform'; seq.append(c6)   # time-function path after the constant one
+            c7 = copy.deepcopy(base); c7['tf'] = 2.5e-4; c7['steps'] = 3.3; seq.append(c7)       # the module's time-step setting changed between calls
+            c8 = copy.deepcopy(base); seq.append(c8)                                               # ... and back
             cases.extend(seq)
         for P, mode in ((2, 'linear'), (3, 'linear'), (2, 'const'), (4, 'const')) if ctx.quick else ((2, 'linear'), (3, 'linear'), (2, 'const'), (3, 'const'), (4, 'const'), (4, 'linear'), (5, 'const')):
             c = gen_case(rh, P, mode=mode, kind='normal')
